@@ -1,7 +1,7 @@
 (* Properties/C06.v -- C06: the returned deformation gradient solves dF/dt = L.F *)
 From Coq Require Import Reals ZArith List.
 From Coquelicot Require Import Hierarchy Derive.
-From PV Require Import Num NumR Model_core Model_minerals Proofs_core Proofs_total Proofs_minerals Proofs_rhs Proofs_flow Proofs_path Proofs_path2.
+From PV Require Import Num NumR Model_core Model_minerals Proofs_core Proofs_total Proofs_minerals Proofs_rhs Proofs_flow Proofs_path Proofs_path2 Proofs_gronwall Proofs_path5.
 Import ListNotations.
 Open Scope R_scope.
 
@@ -136,3 +136,95 @@ Example C06_solution_nonvacuous :
   (forall t : R, nth 0 shear_L 0 + nth 4 shear_L 0 + nth 8 shear_L 0 = 0) /\
   (forall t, detF shear_y t = 1).
 Proof. exact shear_is_solution_proof. Qed.
+
+(* ---- uniqueness: F is determined by its initial value and the velocity-gradient history ALONE -----------
+   dF/dt = L(t).F is linear: two differentiable solutions with the same initial value coincide on [a,b] when
+   L is bounded there (Gronwall on sum (F1 - F2)^2, e' <= 6 B e).  LF F L t i j = sum_m L[3i+m](t) F[3m+j](t). *)
+Theorem C06_linear_solution_unique : forall (F1 F2 L : nat -> R -> R) (a b B : R),
+  a <= b ->
+  (forall i j t, (i < 3)%nat -> (j < 3)%nat -> a <= t <= b -> is_derive (F1 (3 * i + j)%nat) t (LF F1 L t i j)) ->
+  (forall i j t, (i < 3)%nat -> (j < 3)%nat -> a <= t <= b -> is_derive (F2 (3 * i + j)%nat) t (LF F2 L t i j)) ->
+  (forall k t, (k < 9)%nat -> a <= t <= b -> Rabs (L k t) <= B) ->
+  (forall k, (k < 9)%nat -> F1 k a = F2 k a) ->
+  forall t, a <= t <= b -> forall k, (k < 9)%nat -> F1 k t = F2 k t.
+Proof. exact linear_F_unique. Qed.
+
+(* the F block of an exact solution of the integrated system does NOT depend on the mineral: two systems that
+   differ in phase, fabric, regime, grain count, texture (y1, y2 beyond index 9), assemblage, phase fractions
+   (hence single-phase vs multiphase), recrystallisation parameters, diffusion-stretch and strain-rate-scale
+   oracles, but see the same velocity-gradient history and start from the same F, have the same F at every time *)
+Theorem C06_F_independent_of_mineral :
+  forall (regime1 ph1 fb1 : Z) (n1 : nat) (ass1 : list Z) (frs1 Sd1 : list R) (p1 nn1 lam1 M1 : R) (sh1 : R -> R)
+         (regime2 ph2 fb2 : Z) (n2 : nat) (ass2 : list Z) (frs2 Sd2 : list R) (p2 nn2 lam2 M2 : R) (sh2 : R -> R)
+         (Lh : R -> list R) (y1 y2 : nat -> R -> R) (a b B : R),
+  a <= b ->
+  (forall t, a <= t <= b -> exists out,
+     @rhs NumR regime1 ph1 fb1 n1 ass1 frs1 (Lh t) (sh1 t) Sd1 p1 nn1 lam1 M1 (ylist n1 (fun j => y1 j t)) = Ok out) ->
+  (forall t, a <= t <= b -> exists out,
+     @rhs NumR regime2 ph2 fb2 n2 ass2 frs2 (Lh t) (sh2 t) Sd2 p2 nn2 lam2 M2 (ylist n2 (fun j => y2 j t)) = Ok out) ->
+  (forall i t, (i < 9)%nat -> a <= t <= b ->
+     is_derive (y1 i) t (f regime1 ph1 fb1 n1 ass1 frs1 Sd1 p1 nn1 lam1 M1 Lh sh1 t (fun j => y1 j t) i)) ->
+  (forall i t, (i < 9)%nat -> a <= t <= b ->
+     is_derive (y2 i) t (f regime2 ph2 fb2 n2 ass2 frs2 Sd2 p2 nn2 lam2 M2 Lh sh2 t (fun j => y2 j t) i)) ->
+  (forall k t, (k < 9)%nat -> a <= t <= b -> Rabs (Lcomp Lh k t) <= B) ->
+  (forall k, (k < 9)%nat -> y1 k a = y2 k a) ->
+  forall t, a <= t <= b -> forall k, (k < 9)%nat -> y1 k t = y2 k t.
+Proof. exact solution_F_independent_of_mineral. Qed.
+
+(* split interval = whole interval (exact solutions): integrate over [a,c], restart from that F and integrate
+   over [c,b]: the F at b is the F of any exact solution over the whole of [a,b] *)
+Theorem C06_F_split_equals_whole :
+  forall (regime ph fb : Z) (n : nat) (ass : list Z) (frs Sd : list R) (p nn lam M : R) (sh : R -> R)
+         (Lh : R -> list R) (yw ya yb : nat -> R -> R) (a c b B : R),
+  a <= c <= b ->
+  (forall t, a <= t <= b -> exists out,
+     @rhs NumR regime ph fb n ass frs (Lh t) (sh t) Sd p nn lam M (ylist n (fun j => yw j t)) = Ok out) ->
+  (forall t, a <= t <= c -> exists out,
+     @rhs NumR regime ph fb n ass frs (Lh t) (sh t) Sd p nn lam M (ylist n (fun j => ya j t)) = Ok out) ->
+  (forall t, c <= t <= b -> exists out,
+     @rhs NumR regime ph fb n ass frs (Lh t) (sh t) Sd p nn lam M (ylist n (fun j => yb j t)) = Ok out) ->
+  (forall i t, (i < 9)%nat -> a <= t <= b ->
+     is_derive (yw i) t (f regime ph fb n ass frs Sd p nn lam M Lh sh t (fun j => yw j t) i)) ->
+  (forall i t, (i < 9)%nat -> a <= t <= c ->
+     is_derive (ya i) t (f regime ph fb n ass frs Sd p nn lam M Lh sh t (fun j => ya j t) i)) ->
+  (forall i t, (i < 9)%nat -> c <= t <= b ->
+     is_derive (yb i) t (f regime ph fb n ass frs Sd p nn lam M Lh sh t (fun j => yb j t) i)) ->
+  (forall k t, (k < 9)%nat -> a <= t <= b -> Rabs (Lcomp Lh k t) <= B) ->
+  (forall k, (k < 9)%nat -> ya k a = yw k a) ->
+  (forall k, (k < 9)%nat -> yb k c = ya k c) ->
+  forall k, (k < 9)%nat -> yb k b = yw k b.
+Proof. exact solution_F_split_equals_whole. Qed.
+
+(* non-vacuity: the velocity gradient of the pure-shear witness of C06_solution_nonvacuous is bounded by 1
+   (the remaining hypotheses are those of C06_solution_nonvacuous, met by shear_y) *)
+Example C06_uniqueness_nonvacuous :
+  forall k t, (k < 9)%nat -> Rabs (Lcomp (fun _ => shear_L) k t) <= 1.
+Proof. exact shear_L_bounded_proof. Qed.
+(* ---- round 5: where the integration of F starts and what a bulk update returns (Model_minerals.y_start,
+   bulk_update, bulk_y0; tied to the source by Inst_minerals_drv: lsoda_args_inst_*, update_all_inst_1_{2,3}) -- *)
+From PV Require Import Proofs_driver.
+
+(* the F block of the vector handed to the integrator is the caller's deformation gradient *)
+Theorem C06_integration_starts_at_given_F : forall (Fd : list R) (s : @snapshot NumR),
+  length Fd = 9%nat -> @ev_F NumR (@y_start NumR Fd s) = Fd.
+Proof. exact y_start_F. Qed.
+
+(* bulk clause: update_all hands the SAME starting F to every mineral's integrator ... *)
+Theorem C06_bulk_same_starting_F : forall (Fd : list R) (hs : list (@history NumR)), length Fd = 9%nat ->
+  Forall (fun y0 => @ev_F NumR y0 = Fd) (@bulk_y0 NumR Fd hs).
+Proof. exact bulk_y0_same_F. Qed.
+
+(* ... and returns the F block of the LAST mineral's integrator vector *)
+Theorem C06_bulk_returns_last_F_block : forall n chi (ms : list (@history NumR * list R)) (h : @history NumR) (y : list R),
+  length y = (9 + 10 * n)%nat -> fst (bulk_pairs n chi (ms ++ [(h, y)])) = Ok (firstn 9 y).
+Proof. exact bulk_returns_last_F_block. Qed.
+
+Example C06_bulk_nonvacuous : length id9 = 9%nat /\ length (@y_start NumR id9 snap_ex) = (9 + 10 * 2)%nat.
+Proof. exact bulk_nonvacuous_proof. Qed.
+
+(* across updates: when the F an update returns is handed to the next update (of this or another mineral), the next
+   integration of F starts EXACTLY at the F block of the vector the previous integrator ended with *)
+Theorem C06_F_handover_between_updates : forall n chi (prev s' : @snapshot NumR) (y : list R),
+  length y = (9 + 10 * n)%nat ->
+  @ev_F NumR (@y_start NumR (fst (@update NumR n chi prev y)) s') = firstn 9 y.
+Proof. exact F_handover. Qed.
